@@ -134,3 +134,41 @@ func (p *Pool) Put(x any) {
 	}
 	p.mu.Unlock()
 }
+
+// RWMutex: the real one outside the scheduler, vrt.RWModel under it.
+type RWMutex struct {
+	mu stdsync.RWMutex
+	m  vrt.RWModel
+}
+
+func (m *RWMutex) Lock() {
+	if vrt.GetMode() != vrt.Scheduled {
+		m.mu.Lock()
+		return
+	}
+	vrt.WLock(&m.m, "Lock@"+caller())
+}
+
+func (m *RWMutex) Unlock() {
+	if vrt.GetMode() != vrt.Scheduled {
+		m.mu.Unlock()
+		return
+	}
+	vrt.WUnlock(&m.m, "Unlock@"+caller())
+}
+
+func (m *RWMutex) RLock() {
+	if vrt.GetMode() != vrt.Scheduled {
+		m.mu.RLock()
+		return
+	}
+	vrt.RLock(&m.m, "RLock@"+caller())
+}
+
+func (m *RWMutex) RUnlock() {
+	if vrt.GetMode() != vrt.Scheduled {
+		m.mu.RUnlock()
+		return
+	}
+	vrt.RUnlock(&m.m, "RUnlock@"+caller())
+}
